@@ -170,6 +170,8 @@ func (c *c08) RunCase(w *core.Worker, idx int, seed uint64, res *core.CaseResult
 			}
 			if losing {
 				res.Violate("C08/node-of-losing-case-on-device"+c08Feature(k, nested), "%s: device still has %s=%s, which belongs to a case that does not win\n  model: %s", where, k, dv, run.m)
+			} else if presenceContainers[k] && hasDescendant(D, k) {
+				// a presence container that holds a node exists by necessity
 			} else {
 				res.Violate("C08/stale-node", "%s: device still has %s=%s although no live intent defines it\n  model: %s", where, k, dv, run.m)
 			}
